@@ -99,6 +99,9 @@ var acceptC09 = []accept{
 
 func runC09(p *eng.Prog, r *eng.Report, tier string) {
 	c := &cx{p, r, tier}
+	// C09.33 (= C11.5, imported): the separators of an address are looked up in the order of RFC 7622 and no
+	// index computed on the uncut string is applied to the cut one (slice bounds out of range on from="d/a@b")
+	importRules(c, "C11", []string{"C11.5"}, "C09.33")
 	c.r.Floor("C09.29", "deferred releases of a mutex", deferredReleaseNotInLoop(c, "C09.29"), 20)
 	r.Floor("C09.27", "comparisons of interface values", interfaceComparisonsCannotPanic(c, "C09.27"), 10)
 	r.Floor("C09.28", "blocking channel operations", lockHeldAcrossChannelOp(c, "C09.28", ""), 10)
